@@ -187,3 +187,11 @@ func shiftOf() int {
 }
 
 func shlSym(x, n verif.BV) verif.BV { return verif.BVShlSym(x, n) }
+
+// For the front ends in package curve (group "abg"): FindShortVector returns an ARBITRARY pair of 128-bit signed
+// integers (the inputs fsv.*), so that the sign handling of the callers is checked for every pair.
+//
+//verif:contract for=internal/lattice.FindShortVector group=abg
+func abg_FindShortVector(k *scalar.Scalar) (Int128, Int128) {
+	return Int128{hi: verif.AnyI64("fsv.d0hi"), lo: verif.AnyU64("fsv.d0lo")}, Int128{hi: verif.AnyI64("fsv.d1hi"), lo: verif.AnyU64("fsv.d1lo")}
+}
